@@ -83,7 +83,7 @@ func decorate(req *http.Request) {
 // headerValue keeps what net/http's server accepts in a header field value.
 func headerValue(s string) string {
 	var b []byte
-	for i := 0; i < len(s) && len(b) < 200; i++ {
+	for i := 0; i < len(s) && len(b) < 600; i++ {
 		if s[i] >= 0x20 && s[i] != 0x7f {
 			b = append(b, s[i])
 		}
@@ -170,8 +170,13 @@ var headerBreakers = []string{
 	"'><svg/onload=alert(1)>", "<!--", "{\"error\":\"x\"} <b>", "+ADw-script+AD4-", "&lt;script&gt;", "-->", "--!>",
 }
 
+// one value that breaks out of every context a header value might be copied into: comment (both
+// HTML5 terminators), CDATA, RCDATA (title, textarea), raw text (style, script), quoted and
+// back-quoted attribute values
+const omniBreaker = "--!><img src=x onerror=alert(1)>--><script>alert(2)</script>]]><svg onload=alert(3)></title><i>t</i></textarea><i>a</i></style><i>s</i></script><i>c</i>\"><u x=`y`>'><s>"
+
 func hostileHeaders(k int, extra string) [][2]string {
-	p := func(i int) string { return headerValue(headerBreakers[(k+i)%len(headerBreakers)]) }
+	p := func(i int) string { return headerValue(omniBreaker + " " + headerBreakers[(k+i)%len(headerBreakers)]) }
 	x := headerValue(extra)
 	return [][2]string{
 		{"X-Forwarded-For", "203.0.113.7, 10.0.0.1 , " + p(0)},
